@@ -11,7 +11,8 @@ From Coq Require Import ZArith List Bool.
 Require Import Base.Bits Base.Iter Base.Wr Gen.Consts Gen.Types Gen.Preds Model.Packet Model.Pes Model.Pool Model.PoolRun
   Model.Muxer Model.Reader Model.Demux Model.DemuxFull Spec.MuxSpec Spec.PesSpec Spec.PacketSpec
   Proofs.LossProofs Proofs.UnitsProofs Proofs.PesRoundTrip Proofs.MuxerProofs Proofs.MuxerPackets Proofs.DemuxProofs
-  Proofs.RoundTripPkt Proofs.RoundTripDemux Proofs.RoundTripUnit Proofs.RoundTripL1 Proofs.RoundTripExamples.
+  Proofs.PsiSiLink Proofs.PsiDescLink Proofs.RoundTripPkt Proofs.RoundTripDemux Proofs.RoundTripUnit Proofs.RoundTripL1
+  Proofs.RoundTripTables Proofs.RoundTripMux Proofs.RoundTripRun Proofs.RoundTripExamples.
 Import ListNotations.
 Open Scope Z_scope.
 
@@ -92,18 +93,77 @@ Theorem C01_parse_mux_packet : forall q, mux_wf q ->
 Proof. exact parse_mux_pkt. Qed.
 Print Assumptions C01_parse_mux_packet.
 
-(* the composed statement (not yet closed as one theorem) *)
-Definition demux_all (bytes : list Z) : list (res DemuxerData) :=
-  let fix go (fuel : nat) (s : dstate) :=
-    match fuel with
-    | O => []
-    | S k => let '(r, s') := next_data full_parsers None no_skip s in
-             match r with Err c => if c =? E_nomore then [] else r :: go k s' | _ => r :: go k s' end
-    end in
-  go (3 * length bytes + 8)%nat (init_dstate (new_reader bytes None Seekable) 188).
+(* ---- the composed round trip over whole histories (levels 2 and 3) ----
+   Vocabulary (Proofs/RoundTripRun.v, all executable, nothing refers to how the demuxer computes):
+     demux_all bytes      the results of successive NextData calls (packet size 188, no skipper, no packets parser) on
+                          a fresh demuxer reading [bytes], up to the first ErrNoMorePackets;
+     expect s pend ops    what must come out, call by call:
+                            - a call whose packets start with PAT;PMT (WriteTables, or WriteData when the tables are
+                              due): the PAT (program 1 -> PID 0x1000) and the PMT listing exactly the streams
+                              configured at that moment, in insertion order, with the PCR PID (tables_out);
+                            - a successful WriteData on PID x: the PES written by the PREVIOUS WriteData on x, if any
+                              (the demuxer delivers a unit when the next one starts) -- payload bytes, header with the
+                              derived fields (observed_header: stream id filled in from the stream type, PTS/DTS/ESCR
+                              ..., PES_packet_length by the length rule), PID, and FirstPacket = header and
+                              adaptation field of the unit's first payload packet as parsePacket reports them
+                              (pes_datum; C01_first_packet: that is the caller's adaptation field whenever it leaves
+                              room for the PES header);
+                            - at end of stream: the last PES of every PID, in increasing PID order;
+     history_ok D s ops   the domain: no call panics; no WritePacket (S7); every stream configured is on a PID the
+                          demuxer treats as PES (0x20..0x1FFE except 0x1000: S2), has a stream type that fits 8 bits and
+                          descriptors in the domain D of the table theorems; a WriteData either succeeds and is in
+                          data_in_domain (see C01_roundtrip_one_unit) or fails without emitting anything (unknown PID,
+                          tables that cannot be generated).  AddElementaryStream (explicit or automatic PID),
+                          RemoveElementaryStream (a PID added again carries on its counter), SetPCRPID, WriteTables in
+                          any order and number.
+   Statement: every result is Ok, and the data are exactly [expect], in this order -- nothing lost, duplicated,
+   reordered or reported as an error.  D is the descriptor domain of C13/C14: any relation between descriptor lists and
+   byte strings for which parseDescriptors inverts the loop (desc_premises), the writer emits those bytes (desc_bytes)
+   and the Muxer's PMT size check adds up their number. *)
+Theorem C01_roundtrip : forall (D : list Descriptor -> list Z -> Prop),
+  desc_premises D -> (forall ds bytes, D ds bytes -> desc_bytes ds bytes) -> D [] [] ->
+  (forall ds bytes, D ds bytes ->
+     fold_left (fun k d => k + (2 + Desc.calc_descriptor_length d)) ds 0 = Z.of_nat (length bytes)) ->
+  forall period ops, history_ok D (new_muxer period) ops ->
+  demux_all (concat (map mout_bytes (snd (mux_run (new_muxer period) ops)))) =
+  map Ok (expect (new_muxer period) [] ops).
+Proof. exact roundtrip_history. Qed.
+Print Assumptions C01_roundtrip.
 
-Definition C01_roundtrip_full : Prop := forall period ops,
-  (* for every history of Add / Remove / SetPCRPID / WriteTables / WriteData inside the property's domain *)
-  let outs := snd (mux_run (new_muxer period) ops) in
-  let bytes := concat (map mout_bytes outs) in
-  Forall (fun r => exists d, r = Ok d) (demux_all bytes).
+(* ... and without any premise for streams that carry no descriptors *)
+Theorem C01_roundtrip_nodesc : forall period ops, history_ok no_desc16 (new_muxer period) ops ->
+  demux_all (concat (map mout_bytes (snd (mux_run (new_muxer period) ops)))) =
+  map Ok (expect (new_muxer period) [] ops).
+Proof. exact roundtrip_history_nodesc. Qed.
+Print Assumptions C01_roundtrip_nodesc.
+
+(* the hypotheses are satisfiable: Add 0x101 (H.264); SetPCRPID 0x101; WriteData (PTS, 300 bytes: emits the tables first);
+   WriteData (PTS, 500 bytes); WriteTables -- and what must come out is PAT, PMT, the first PES (when the second unit
+   starts), PAT, PMT, and the second PES at end of stream *)
+Example C01_roundtrip_inhabited :
+  history_ok no_desc16 (new_muxer 40) rt_hist /\
+  map DemuxerData_PID (expect (new_muxer 40) [] rt_hist) = [0; 4096; 257; 0; 4096; 257] /\
+  map (fun d => match DemuxerData_PES d with Some pes => length (PESData_Data pes) | None => O end)
+      (expect (new_muxer 40) [] rt_hist) = [0; 0; 300; 0; 0; 500]%nat.
+Proof. split; [exact rt_history_ok|exact rt_expect_shape]. Qed.
+
+(* one call: what the demuxer delivers while it consumes the packets of the call, and the invariant that ties the
+   Muxer's state and the data still pending to the demuxer's pool and program map (Proofs.RoundTripRun.inv) *)
+Theorem C01_step : forall (D : list Descriptor -> list Z -> Prop),
+  desc_premises D -> (forall ds bytes, D ds bytes -> desc_bytes ds bytes) -> D [] [] ->
+  (forall ds bytes, D ds bytes ->
+     fold_left (fun k d => k + (2 + Desc.calc_descriptor_length d)) ds 0 = Z.of_nat (length bytes)) ->
+  forall s pend pl pm o s' p,
+  inv D s pend pl pm -> mux_step_part s o = (s', p) -> op_ok D s o s' p ->
+  exists pl' pm',
+    feed full_parsers pl pm (map obs_pkt (pa_pkts p)) = Some (pl', pm', fst (step_out s pend o p)) /\
+    inv D s' (snd (step_out s pend o p)) pl' pm' /\
+    Forall mux_wf (pa_pkts p) /\
+    (length (fst (step_out s pend o p)) + length (snd (step_out s pend o p)) <= length pend + length (pa_pkts p))%nat.
+Proof. exact step_feed. Qed.
+Print Assumptions C01_step.
+
+(* NextData calls over a reader of 188-byte packets = the pure feed / drain over the parsed packets *)
+Theorem C01_calls_are_feed : forall P L s fuel, yields P s L -> (length L < fuel)%nat -> nd_all P fuel s = map Ok L.
+Proof. exact nd_all_yields. Qed.
+Print Assumptions C01_calls_are_feed.
